@@ -1,0 +1,30 @@
+//go:build verif
+
+// Contracts for the deductive verifier in /verif (comment-only file; compiled
+// only with -tags verif and declares nothing).
+
+package enc
+
+//@ # cnt(s, v, i): number of extra bytes needed to escape s[0:i] (2 per byte rejected by v)
+//@ rec spec cnt(s string, v bytepred, i int) int = ite(i <= 0, 0, cnt(s, v, i-1) + ite(v(s[i-1]), 0, 2))
+//@ lemma cntMono: forall(s string, v bytepred, a int, b int, 0 <= a && a <= b ==> 0 <= cnt(s, v, a) && cnt(s, v, a) <= cnt(s, v, b)) by induction on b
+
+//@ lemma cntBound: forall(s string, v bytepred, i int, 0 <= i ==> cnt(s, v, i) <= 2*i) by induction on i
+
+//@ lemma cntZero: forall(s string, v bytepred, n int, k int, 0 <= k && k < n && cnt(s, v, n) == 0 ==> v(s[k]) && cnt(s, v, k) == 0) by induction on n
+//@ # the encoding of byte k ends before the encoding of byte i starts (k < i)
+//@ lemma encPos: forall(s string, v bytepred, k int, i int, 0 <= k && k < i ==> k + cnt(s, v, k) + ite(v(s[k]), 0, 2) < i + cnt(s, v, i), pattern(cnt(s, v, k), cnt(s, v, i))) by induction on i
+
+//@ spec hexdig(x int) byte = "0123456789ABCDEF"[x]
+//@ # encAt(r, p, c, ok): the encoding of byte c sits at position p of r
+//@ spec encAt(r string, p int, c byte, ok bool) bool = ite(ok, r[p] == c, r[p] == '\\' && r[p+1] == hexdig(c / 16) && r[p+2] == hexdig(c % 16))
+//@ # isEsc(r, s, v): r is the escaped form of s under validity predicate v
+//@ spec isEsc(r string, s string, v bytepred) bool = len(r) == len(s) + cnt(s, v, len(s)) && forall(k, 0, len(s), encAt(r, k + cnt(s, v, k), s[k], v(s[k])))
+
+//@ func Escape
+//@   props C11
+//@   overflow
+//@   ensures isEsc(result, old(string(s)), valid)
+//@   loop 0: invariant 0 <= i && i <= len(s) && extra == cnt(old(string(s)), valid, i)
+//@   loop 1: invariant 0 <= i && i <= len(s) && j == i + cnt(old(string(s)), valid, i) && len(buf) == len(s) + cnt(old(string(s)), valid, len(s))
+//@   loop 1: invariant forall(k, 0, i, encAt(string(buf), k + cnt(old(string(s)), valid, k), old(s[k]), valid(old(s[k]))))
